@@ -785,7 +785,17 @@ fn main() {
                 f(1);
             }
         }
+        // environment edits of an existing file (damage) keep its modification time: bit rot and hostile
+        // edits do not announce themselves (the model makes the same choice)
+        let env_edit = step.get("op").and_then(|x| x.as_str()).map(|o| o.starts_with("fs_")).unwrap_or(false) && step.get("path").is_some();
+        let edited = if env_edit { Some(cx.path(&step["path"])) } else { None };
+        let before = edited.as_ref().and_then(|p| std::fs::symlink_metadata(p).ok()).filter(|m| m.is_file()).and_then(|m| m.modified().ok());
         let r = catch_unwind(AssertUnwindSafe(|| run_step(&mut cx, step)));
+        if let (Some(p), Some(t)) = (edited.as_ref(), before) {
+            if let Ok(f) = std::fs::OpenOptions::new().write(true).open(p) {
+                let _ = f.set_modified(t);
+            }
+        }
         if armed_here {
             if let Some(f) = arm {
                 f(0);
